@@ -232,6 +232,21 @@ func (w *world) build(s *state, rq request) (*types.RotateNodeCredentialsRequest
 			return nil, ""
 		}
 		inner, innerKey = mk(fresh, harness.ForgedToken(w.seed), 0), fresh
+	case "fresh+rewrapped-by-own-record":
+		// the rotating node attaches, outside the signed bundle, registration
+		// info for its new key re-sealed under the keys it shares with the
+		// server (as an upstream node would for a downstream one), naming K1's
+		// record as the re-wrapper
+		if fresh == "" {
+			return nil, ""
+		}
+		fr := mk(fresh, harness.Bytes("rot-nonce-"+fresh, 32), 0)
+		blob, err := nodeenrollment.EncryptMessage(harness.Ctx, &types.WrappingRegistrationFlowInfo{CertificatePublicKeyPkix: w.k[fresh].Pkix, Nonce: harness.Bytes("rot-nonce-"+fresh, 32)}, src)
+		if err != nil {
+			panic(err)
+		}
+		fr.RewrappedWrappingRegistrationFlowInfo, fr.RewrappingKeyId = blob, w.k["K1"].KeyId
+		inner, innerKey = fr, fresh
 	case "compact-token-nonce", "nonce-31-bytes", "nonce-33-bytes":
 		if fresh == "" {
 			return nil, ""
@@ -470,7 +485,7 @@ func (w *world) apply(s *state, ic initCfg, label string, r *engine.Report) (*st
 		if req == nil {
 			return nil, "", ""
 		}
-		return w.send(s, ic.Plain, label, req, innerKey, rq.Inner == "fresh" || strings.HasPrefix(rq.Inner, "registered:"), r)
+		return w.send(s, ic.Plain, label, req, innerKey, strings.HasPrefix(rq.Inner, "fresh") || strings.HasPrefix(rq.Inner, "registered:"), r)
 	case strings.HasPrefix(label, "replay|"):
 		orig := strings.TrimPrefix(label, "replay|")
 		req, ok := s.payloads[orig]
@@ -510,7 +525,7 @@ func labels(c *engine.Ctx) []string {
 	var out []string
 	srcs := []string{"cur:K1", "prev:K1", "cur:K1b", "cur:K2", "unrelated", "cur:Kn1"}
 	idents := []string{"key:K1", "key:K2", "key:KU", "key:Kn1", "node:X", "node:Z"}
-	inners := []string{"fresh", "registered:K2", "registered:K1", "token-nonce", "compact-token-nonce", "nonce-31-bytes", "nonce-33-bytes", "expired", "wrong-signer", "garbage"}
+	inners := []string{"fresh", "fresh+rewrapped-by-own-record", "registered:K2", "registered:K1", "token-nonce", "compact-token-nonce", "nonce-31-bytes", "nonce-33-bytes", "expired", "wrong-signer", "garbage"}
 	for _, s := range srcs {
 		for _, i := range idents {
 			for _, in := range inners {
@@ -616,7 +631,7 @@ func init() {
 	engine.Register(&engine.CheckDef{
 		ID:    "C10",
 		Level: "model_checking",
-		Rule: "BFS (quick depth 3, thorough 4) from 11 initial stores (previous key recorded or not; the superseded record still stored before/after its successor; a second record under the node id before/after the first; NodeIdLoader or plain storage) over rotation requests {encrypting key: current of K1/K1b/K2/new key, recorded previous pair, unrelated} x {identification: key id of K1/K2/unknown/new, node id X, unknown node id} x {inner: fresh key, registered K1/K2, token-sized nonce, compact token nonce, 31- and 33-byte nonces, expired window, wrong signer, not a request}, the honest shapes again with a caller-supplied WithState option (K2's record carries no state, the others do), replays of every honoured payload and removal of old records; every request refused only for an already registered inner key is retried with each single storage operation failing and must stay refused; " +
+		Rule: "BFS (quick depth 3, thorough 4) from 11 initial stores (previous key recorded or not; the superseded record still stored before/after its successor; a second record under the node id before/after the first; NodeIdLoader or plain storage) over rotation requests {encrypting key: current of K1/K1b/K2/new key, recorded previous pair, unrelated} x {identification: key id of K1/K2/unknown/new, node id X, unknown node id} x {inner: fresh key, fresh key with registration info re-sealed under the sender's own keys attached, registered K1/K2, token-sized nonce, compact token nonce, 31- and 33-byte nonces, expired window, wrong signer, not a request}, the honest shapes again with a caller-supplied WithState option (K2's record carries no state, the others do), replays of every honoured payload and removal of old records; every request refused only for an already registered inner key is retried with each single storage operation failing and must stay refused; " +
 			"distinct_nontrivial = canonical states reached (records with node id / previous key / state, and the set of honoured payloads)",
 		Assumptions: []string{"removing the record a rotation created and then replaying that rotation is outside the alphabet (the quantifier lists replay and repeated rotation, not revocation)", "forged = encrypted under another pool key"},
 		Shards:      func(c *engine.Ctx) int { return 11 },
